@@ -67,6 +67,10 @@ HARNESSES = [
     # ---------------------------------------------------------------- store (C02, C09, C04, C07, C08)
     dict(name="c02_store_reads_agree_with_abstract_map", tier="quick", file="store.rs", props=["C02", "C09", "C16"], timeout=600,
          encodes=["tinylfu_cached::cache::store::Store::{get,get_ref,contains,is_present}", "StoredValue::is_alive", "KeyValueRef::{key,value}"]),
+    dict(name="c04_mark_deleted_while_reader_holds_guard", file="store.rs", props=["C04", "C18"], timeout=600,
+         encodes=["tinylfu_cached::cache::store::Store::{get_ref,mark_deleted,get}"]),
+    dict(name="c07_existence_check_while_writer_holds_guard", file="store.rs", props=["C07", "C18"], timeout=600,
+         encodes=["tinylfu_cached::cache::store::Store::{update,is_present}"]),
     dict(name="c02_store_write_step", tier="quick", file="store.rs", props=["C02", "C03", "C04", "C08"], timeout=600,
          encodes=["tinylfu_cached::cache::store::Store::{put,put_with_ttl,delete,mark_deleted,update,clear}", "UpdateResponse::{did_update_happen,existing_expiry,new_expiry,value,key_id_or_panic}"]),
     # ---------------------------------------------------------------- admission (C06, C01, C03)
@@ -103,7 +107,7 @@ HARNESSES = [
          encodes=["tinylfu_cached::cache::cached::CacheD::{multi_get,multi_get_iterator,multi_get_map_iterator}", "MultiGetIterator::next", "MultiGetMapIterator::next"]),
     dict(name="c02_two_keys_map_iterator", tier="quick", file="cached.rs", props=["C02"], timeout=900,
          encodes=["tinylfu_cached::cache::cached::CacheD::{multi_get,multi_get_iterator,multi_get_map_iterator}", "MultiGetIterator::next", "MultiGetMapIterator::next"]),
-    dict(name="c07_put_client_step_q0", tier="quick", group="c07_put_client_step", file="cached.rs", props=["C07", "C05"], timeout=900,
+    dict(name="c07_put_client_step_q0", tier="quick", group="c07_put_client_step", file="cached.rs", props=["C07"], timeout=900,
          encodes=["tinylfu_cached::cache::cached::CacheD::{put,put_with_weight,put_with_ttl,put_with_weight_and_ttl,key_description}", "Store::is_present", "CommandExecutor::send", "Calculation::perform", "CommandAcknowledgement::{new,rejected}"]),
     dict(name="c07_put_client_step_q1", tier="quick", group="c07_put_client_step", file="cached.rs", props=["C07"], timeout=900,
          encodes=["tinylfu_cached::cache::cached::CacheD::{put,put_with_weight,put_with_ttl,put_with_weight_and_ttl,key_description}", "Store::is_present", "CommandExecutor::send", "Calculation::perform", "CommandAcknowledgement::{new,rejected}"]),
@@ -121,19 +125,37 @@ HARNESSES = [
          encodes=["tinylfu_cached::cache::cached::CacheD::{delete,get,get_ref,put_with_weight,total_weight_used}", "Store::{mark_deleted,delete}", "CommandExecutor::{send,spin (worker closure),delete}", "AdmissionPolicy::delete", "CacheWeight::delete", "TTLTicker::delete", "CommandAcknowledgementHandle::{done,poll}"]),
     dict(name="c07_put_while_writer_holds_guard", tier="off", file="cached.rs", props=["C07", "C18"], timeout=900,
          encodes=["tinylfu_cached::cache::cached::CacheD::{put_or_update,put_with_weight}", "Store::{update,is_present}"]),
+    dict(name="c05_put_of_expired_unswept_key", file="cached.rs", props=["C05", "C07"], timeout=900,
+         encodes=["tinylfu_cached::cache::cached::CacheD::{put_with_weight,put_with_weight_and_ttl}", "Store::is_present", "CommandExecutor::{send,spin (worker closure: Put, PutWithTTL arms)}", "AdmissionPolicy::maybe_add", "Store::{put,put_with_ttl}"]),
+    dict(name="c05_put_of_soft_deleted_key", file="cached.rs", props=["C05", "C07"], timeout=900,
+         encodes=["tinylfu_cached::cache::cached::CacheD::{put_with_weight,put_with_weight_and_ttl}", "Store::is_present", "CommandExecutor::{send,spin (worker closure: Put, PutWithTTL arms)}", "AdmissionPolicy::maybe_add", "Store::{put,put_with_ttl}"]),
+    dict(name="c05_put_ttl_of_expired_unswept_key", file="cached.rs", props=["C05", "C07"], timeout=900,
+         encodes=["tinylfu_cached::cache::cached::CacheD::{put_with_weight,put_with_weight_and_ttl}", "Store::is_present", "CommandExecutor::{send,spin (worker closure: Put, PutWithTTL arms)}", "AdmissionPolicy::maybe_add", "Store::{put,put_with_ttl}"]),
     dict(name="c04_delete_while_reader_holds_guard", tier="off", file="cached.rs", props=["C04", "C18"], timeout=900,
          encodes=["tinylfu_cached::cache::cached::CacheD::{get_ref,delete,get,total_weight_used}", "Store::mark_deleted"]),
-    dict(name="c08_put_or_update_step_q0_k0", tier="thorough", group="c08_put_or_update_step", file="cached.rs", props=["C08", "C10", "C18"], timeout=1500,
+    dict(name="c08_upsert_plain_key_ttl_untouched", group="c08_upsert_small_world", file="cached.rs", props=["C08", "C10"], timeout=900,
+         encodes=["tinylfu_cached::cache::cached::CacheD::{put_or_update,get}", "PutOrUpdateRequest::updated_weight", "Store::update", "StoredValue::update", "UpdateResponse::type_of_expiry_update", "TTLTicker::{put,update,delete}", "AdmissionPolicy::weight_of", "CommandExecutor::send"]),
+    dict(name="c08_upsert_plain_key_ttl_added", group="c08_upsert_small_world", file="cached.rs", props=["C08", "C10"], timeout=900,
+         encodes=["tinylfu_cached::cache::cached::CacheD::{put_or_update,get}", "PutOrUpdateRequest::updated_weight", "Store::update", "StoredValue::update", "UpdateResponse::type_of_expiry_update", "TTLTicker::{put,update,delete}", "AdmissionPolicy::weight_of", "CommandExecutor::send"]),
+    dict(name="c08_upsert_plain_key_ttl_removed", group="c08_upsert_small_world", file="cached.rs", props=["C08", "C10"], timeout=900,
+         encodes=["tinylfu_cached::cache::cached::CacheD::{put_or_update,get}", "PutOrUpdateRequest::updated_weight", "Store::update", "StoredValue::update", "UpdateResponse::type_of_expiry_update", "TTLTicker::{put,update,delete}", "AdmissionPolicy::weight_of", "CommandExecutor::send"]),
+    dict(name="c08_upsert_ttl_key_ttl_untouched", group="c08_upsert_small_world", file="cached.rs", props=["C08", "C10"], timeout=900,
+         encodes=["tinylfu_cached::cache::cached::CacheD::{put_or_update,get}", "PutOrUpdateRequest::updated_weight", "Store::update", "StoredValue::update", "UpdateResponse::type_of_expiry_update", "TTLTicker::{put,update,delete}", "AdmissionPolicy::weight_of", "CommandExecutor::send"]),
+    dict(name="c08_upsert_ttl_key_ttl_changed", group="c08_upsert_small_world", file="cached.rs", props=["C08", "C10"], timeout=900,
+         encodes=["tinylfu_cached::cache::cached::CacheD::{put_or_update,get}", "PutOrUpdateRequest::updated_weight", "Store::update", "StoredValue::update", "UpdateResponse::type_of_expiry_update", "TTLTicker::{put,update,delete}", "AdmissionPolicy::weight_of", "CommandExecutor::send"]),
+    dict(name="c08_upsert_ttl_key_ttl_removed", group="c08_upsert_small_world", file="cached.rs", props=["C08", "C10"], timeout=900,
+         encodes=["tinylfu_cached::cache::cached::CacheD::{put_or_update,get}", "PutOrUpdateRequest::updated_weight", "Store::update", "StoredValue::update", "UpdateResponse::type_of_expiry_update", "TTLTicker::{put,update,delete}", "AdmissionPolicy::weight_of", "CommandExecutor::send"]),
+    dict(name="c08_put_or_update_step_q0_k0", tier="off", group="c08_put_or_update_step", file="cached.rs", props=["C08", "C10", "C18"], timeout=1500,
          encodes=["tinylfu_cached::cache::cached::CacheD::{put_or_update,get,key_description}", "PutOrUpdateRequest::updated_weight", "Store::update", "StoredValue::update", "UpdateResponse::type_of_expiry_update", "TTLTicker::{put,update,delete}", "AdmissionPolicy::{weight_of,update}", "CacheWeight::update", "CommandExecutor::{send,spin (worker closure: UpdateWeight arm)}"]),
-    dict(name="c08_put_or_update_step_q0_k1", tier="thorough", group="c08_put_or_update_step", file="cached.rs", props=["C08", "C10", "C18"], timeout=1500,
+    dict(name="c08_put_or_update_step_q0_k1", tier="off", group="c08_put_or_update_step", file="cached.rs", props=["C08", "C10", "C18"], timeout=1500,
          encodes=["tinylfu_cached::cache::cached::CacheD::{put_or_update,get,key_description}", "PutOrUpdateRequest::updated_weight", "Store::update", "StoredValue::update", "UpdateResponse::type_of_expiry_update", "TTLTicker::{put,update,delete}", "AdmissionPolicy::{weight_of,update}", "CacheWeight::update", "CommandExecutor::{send,spin (worker closure: UpdateWeight arm)}"]),
-    dict(name="c08_put_or_update_step_q0_k2", tier="thorough", group="c08_put_or_update_step", file="cached.rs", props=["C08", "C10", "C18"], timeout=1500,
+    dict(name="c08_put_or_update_step_q0_k2", tier="off", group="c08_put_or_update_step", file="cached.rs", props=["C08", "C10", "C18"], timeout=1500,
          encodes=["tinylfu_cached::cache::cached::CacheD::{put_or_update,get,key_description}", "PutOrUpdateRequest::updated_weight", "Store::update", "StoredValue::update", "UpdateResponse::type_of_expiry_update", "TTLTicker::{put,update,delete}", "AdmissionPolicy::{weight_of,update}", "CacheWeight::update", "CommandExecutor::{send,spin (worker closure: UpdateWeight arm)}"]),
-    dict(name="c08_put_or_update_step_q1_k0", tier="thorough", group="c08_put_or_update_step", file="cached.rs", props=["C08"], timeout=1500,
+    dict(name="c08_put_or_update_step_q1_k0", tier="off", group="c08_put_or_update_step", file="cached.rs", props=["C08"], timeout=1500,
          encodes=["tinylfu_cached::cache::cached::CacheD::{put_or_update,get,key_description}", "PutOrUpdateRequest::updated_weight", "Store::update", "StoredValue::update", "UpdateResponse::type_of_expiry_update", "TTLTicker::{put,update,delete}", "AdmissionPolicy::{weight_of,update}", "CacheWeight::update", "CommandExecutor::{send,spin (worker closure: UpdateWeight arm)}"]),
-    dict(name="c08_put_or_update_step_q1_k1", tier="thorough", group="c08_put_or_update_step", file="cached.rs", props=["C08"], timeout=1500,
+    dict(name="c08_put_or_update_step_q1_k1", tier="off", group="c08_put_or_update_step", file="cached.rs", props=["C08"], timeout=1500,
          encodes=["tinylfu_cached::cache::cached::CacheD::{put_or_update,get,key_description}", "PutOrUpdateRequest::updated_weight", "Store::update", "StoredValue::update", "UpdateResponse::type_of_expiry_update", "TTLTicker::{put,update,delete}", "AdmissionPolicy::{weight_of,update}", "CacheWeight::update", "CommandExecutor::{send,spin (worker closure: UpdateWeight arm)}"]),
-    dict(name="c08_put_or_update_step_q1_k2", tier="thorough", group="c08_put_or_update_step", file="cached.rs", props=["C08"], timeout=1500,
+    dict(name="c08_put_or_update_step_q1_k2", tier="off", group="c08_put_or_update_step", file="cached.rs", props=["C08"], timeout=1500,
          encodes=["tinylfu_cached::cache::cached::CacheD::{put_or_update,get,key_description}", "PutOrUpdateRequest::updated_weight", "Store::update", "StoredValue::update", "UpdateResponse::type_of_expiry_update", "TTLTicker::{put,update,delete}", "AdmissionPolicy::{weight_of,update}", "CacheWeight::update", "CommandExecutor::{send,spin (worker closure: UpdateWeight arm)}"]),
     dict(name="c08_put_or_update_step_q2", tier="quick", group="c08_put_or_update_step", file="cached.rs", props=["C08"], timeout=1500,
          encodes=["tinylfu_cached::cache::cached::CacheD::{put_or_update,get,key_description}", "PutOrUpdateRequest::updated_weight", "Store::update", "StoredValue::update", "UpdateResponse::type_of_expiry_update", "TTLTicker::{put,update,delete}", "AdmissionPolicy::{weight_of,update}", "CacheWeight::update", "CommandExecutor::{send,spin (worker closure: UpdateWeight arm)}"]),
@@ -195,7 +217,7 @@ HARNESSES = [
          encodes=["tinylfu_cached::cache::expiration::TTLTicker::spin (sweeper closure)", "CacheD::ttl_ticker (evict hook)", "AdmissionPolicy::delete_with_hook", "CacheWeight::delete", "Store::delete"]),
     dict(name="c15_consumer_applies_each_batch_once", tier="quick", file="admission_policy.rs", props=["C15"], timeout=900,
          encodes=["tinylfu_cached::cache::policy::admission_policy::AdmissionPolicy::{with_channel_capacity,start (consumer closure),accept,estimate}", "TinyLFU::{new,increment_access}"]),
-    dict(name="c15_consumer_races_estimate", tier="off", file="admission_policy.rs", props=["C15"], timeout=900,
+    dict(name="c15_consumer_races_estimate", file="admission_policy.rs", props=["C15"], timeout=900,
          encodes=["tinylfu_cached::cache::policy::admission_policy::AdmissionPolicy::{start (consumer closure),estimate,accept}"]),
     dict(name="c13_consumer_stops_on_shutdown", tier="quick", file="admission_policy.rs", props=["C13"], timeout=900,
          encodes=["tinylfu_cached::cache::policy::admission_policy::AdmissionPolicy::{shutdown,clear,accept,start (consumer closure)}"]),
